@@ -317,6 +317,17 @@ def forAnyKey (pred : Key → Bool) (ms : Ms) : List Key × Bool :=
 
 /-! ## `Miniscript::iter` / `iter_pk` (src/miniscript/iter.rs) -/
 
+/-- `Miniscript::branches`: its own child table (separate from `get_nth_child`) -/
+def Ms.branches : Ms → List Ms
+  | .pkK _ | .pkH _ | .rawPkH _ | .multi _ _ | .sortedMulti _ _ | .multiA _ _ | .sortedMultiA _ _ => []
+  | .alt node | .swap node | .check node | .dupIf node | .verify node | .nonZero node
+  | .zeroNotEqual node => [node]
+  | .andV node1 node2 | .andB node1 node2 | .orB node1 node2 | .orD node1 node2 | .orC node1 node2
+  | .orI node1 node2 => [node1, node2]
+  | .andOr node1 node2 node3 => [node1, node2, node3]
+  | .thresh _ xs => xs.toList
+  | _ => []
+
 /-- `get_nth_child` -/
 def Ms.getNthChild (ms : Ms) (n : Nat) : Option Ms :=
   match n, ms with
